@@ -3116,6 +3116,8 @@ impl<'source> Parser<'source> {
 
         let mut arms = AstVec::new();
         let mut else_arm_encountered = false;
+        // The span of the `else` keyword, used when reporting that an arm follows the else arm
+        let mut else_arm_span = switch_start_span;
 
         while self.peek_token().is_some() {
             let condition = self.parse_expression(&ExpressionContext::inline())?;
@@ -3127,12 +3129,13 @@ impl<'source> Parser<'source> {
                         return self.consume_token_and_error(UnexpectedSwitchElse);
                     }
                     if else_arm_encountered {
-                        return Err(Error::new(SwitchElseNotInLastArm.into(), switch_start_span));
+                        return Err(Error::new(SwitchElseNotInLastArm.into(), else_arm_span));
                     }
 
                     self.consume_next_token_on_same_line();
                     arm_start_span = self.current_span();
                     else_arm_encountered = true;
+                    else_arm_span = arm_start_span;
 
                     if let Some(expression) =
                         self.parse_expressions(&ExpressionContext::inline(), TempResult::No)?
@@ -3146,7 +3149,7 @@ impl<'source> Parser<'source> {
                 }
                 Some(Token::Then) => {
                     if else_arm_encountered {
-                        return Err(Error::new(SwitchElseNotInLastArm.into(), switch_start_span));
+                        return Err(Error::new(SwitchElseNotInLastArm.into(), else_arm_span));
                     }
                     let Some(condition) = condition else {
                         return self.consume_token_and_error(UnexpectedSwitchThen);
@@ -3216,6 +3219,8 @@ impl<'source> Parser<'source> {
 
         let mut arms = AstVec::new();
         let mut else_arm_encountered = false;
+        // The span of the `else` keyword, used when reporting that an arm follows the else arm
+        let mut else_arm_span = match_start_span;
 
         while self.peek_token().is_some() {
             // Match patterns for a single arm, with alternatives separated by 'or'
@@ -3231,7 +3236,7 @@ impl<'source> Parser<'source> {
             let condition = {
                 while let Some(pattern) = self.parse_match_pattern(false)? {
                     if else_arm_encountered {
-                        return Err(Error::new(MatchElseNotInLastArm.into(), match_start_span));
+                        return Err(Error::new(MatchElseNotInLastArm.into(), else_arm_span));
                     }
 
                     // Match patterns, separated by commas in the case of matching multi-expressions
@@ -3276,7 +3281,7 @@ impl<'source> Parser<'source> {
             let arm_body = match self.peek_next_token_on_same_line() {
                 Some(Token::Else) => {
                     if else_arm_encountered {
-                        return Err(Error::new(MatchElseNotInLastArm.into(), match_start_span));
+                        return Err(Error::new(MatchElseNotInLastArm.into(), else_arm_span));
                     }
                     if !arm_patterns.is_empty() || condition.is_some() {
                         return self.consume_token_and_error(UnexpectedMatchElse);
@@ -3285,6 +3290,7 @@ impl<'source> Parser<'source> {
                     self.consume_next_token_on_same_line();
                     arm_start_span = self.current_span();
                     else_arm_encountered = true;
+                    else_arm_span = arm_start_span;
 
                     if let Some(expression) =
                         self.parse_expressions(&ExpressionContext::inline(), TempResult::No)?
